@@ -21,7 +21,9 @@ def families(tier, seed):
 
 
 def main():
-    chk = Check("C12", "exploration")
+    chk = Check("C12", "other")
+    # deductive part: the state-layout loop of get_jacobian_func satisfies the same contract as to_func's (same state ordering)
+    chk.run_contracts("contracts.c01", names=["ComputeGraph.get_jacobian_func@state-layout"], fallback={"*": lambda: []})
     driver.run_family(
         chk, "jacobian-vs-central-differences", families(chk.tier, chk.seed), cases.case_fn, site="C12/jacobian",
         rule="scalar (vectorize=False) models: linear networks, algebraic chains and diamonds, fan-in, sigmoid / sin / cos / tanh / "
@@ -35,7 +37,9 @@ def main():
     from checks import c18_text
     c18_text.run(chk, site="C12/auto-jacobian", sizes=(3, 12))
     rc = chk.finish(
-        explanation="Bounded: the matrix returned by the real Jacobian function against finite differences of the real vector field.",
+        explanation="Deductive (small core): the state-layout loop of get_jacobian_func satisfies the SAME contract as the one in "
+                    "to_func (checked under C01); the contract determines the layout uniquely, hence the same state ordering for any "
+                    "model. Bounded: the matrix returned by the real Jacobian function against finite differences of the real vector field.",
         assumptions=["central differences with h = 1e-6 in float64 (truncation error 1e-10 on these models)",
                      "for several delays only the SUM of the history matrices is compared (no assumption on their order)"])
     sys.exit(rc)
